@@ -79,6 +79,22 @@ namespace
         static void eval(In<"x", TS<Int>> x, Scalar<"id", Int> id, DateTime now) { g->log[static_cast<int>(id.value())].emplace_back(rel(now), std::to_string(static_cast<long>(x.value()))); }
     };
 
+    struct Bump { static constexpr auto name = "c06p_bump"; static void eval(In<"x", TS<Int>> x, Out<TS<Int>> out) { out.set(x.value() + 1); } };
+    struct Log2
+    {
+        static constexpr auto name = "c06p_log2";
+        static void eval(In<"a", TS<Int>, InputActivity::Active, InputValidity::Unchecked> a, In<"b", TS<Int>, InputActivity::Active, InputValidity::Unchecked> b, Scalar<"id", Int> id, DateTime now)
+        {
+            g->log[static_cast<int>(id.value())].emplace_back(rel(now), opt(a.valid(), a.valid() ? static_cast<long>(a.value()) : 0) + "/" + opt(b.valid(), b.valid() ? static_cast<long>(b.value()) : 0));
+        }
+    };
+    // a child graph that captures BOTH leaves of one producer: two same-typed projections of one node must stay two captures
+    struct BothLeaves
+    {
+        static constexpr auto name = "c06p_both_leaves";
+        static void compose(Wiring &w, Port<TS<Int>> a, Port<TS<Int>> b, Scalar<"id", Int> id) { wire<Log2>(w, wire<Bump>(w, a), wire<Bump>(w, b), id); }
+    };
+
     // consumer spec: <kind><form>  kind: o ordinary output, r recordable state;  form: w whole structure, a leaf a / element 0, b leaf b / element 1
     struct Outcome { std::optional<std::string> violation; std::string sig; };
 
@@ -107,6 +123,7 @@ namespace
                 if (tracker) p = source_port(spec[0]);
                 else { late.push_back(Late{delayed_binding<S>(w), spec[0]}); p = late.back().port(); }
                 if (spec[1] == 'w') wire<ReadWhole>(w, p, Int{id});
+                else if (spec[1] == 'n') nested_<BothLeaves>(w, leaf(p, 'a'), leaf(p, 'b'), Int{id});
                 else wire<ReadLeaf>(w, leaf(p, spec[1]), Int{id});
             };
             for (int st : order)
@@ -153,6 +170,7 @@ namespace
                 const Pair2 &p = (*spec)[0] == 'o' ? o : r;
                 const bool ta = (*spec)[0] == 'o' ? oa : ra, tb = (*spec)[0] == 'o' ? ob : rb;
                 if ((*spec)[1] == 'w') want[id].emplace_back(static_cast<long>(c), opt(p.va, p.a) + "/" + opt(p.vb, p.b));
+                else if ((*spec)[1] == 'n') { if (ta || tb) want[id].emplace_back(static_cast<long>(c), opt(p.va, p.a + 1) + "/" + opt(p.vb, p.b + 1)); }
                 else if ((*spec)[1] == 'a' && ta) want[id].emplace_back(static_cast<long>(c), std::to_string(p.a));
                 else if ((*spec)[1] == 'b' && tb) want[id].emplace_back(static_cast<long>(c), std::to_string(p.b));
             }
@@ -188,7 +206,7 @@ std::optional<std::string> verif_run_case(verif::Ctx &, const std::string &desc)
 void verif_enumerate(verif::Ctx &ctx)
 {
     const bool th = ctx.thorough();
-    const std::vector<std::string> consumers = {"ow", "oa", "ob", "rw", "ra", "rb"};
+    const std::vector<std::string> consumers = {"ow", "oa", "ob", "on", "rw", "ra", "rb", "rn"};
     std::vector<std::vector<std::string>> scripts;
     {
         // every history over T cycles of {no tick, odd value, even value}
